@@ -177,6 +177,12 @@ def _run(V, work, tier):
         recs.append(mach.prog_record("h%d/inf" % i, ev, {}, md))
         drv.append({"id": "h%d/inf" % i, "seq": srcs, "modes": md, "cfg": {}})
         meta["h%d/inf" % i] = (i, 0)
+        # what was defined under a context that has since been cancelled works in later context-less evaluations
+        for k in (1, 2):
+            cid = "h%d/ctx%d" % (i, k)
+            recs.append(mach.prog_record(cid, ev, {"ctxfirst": k}, md))
+            drv.append({"id": cid, "seq": srcs, "modes": md, "cfg": {"ctx_first": k}})
+            meta[cid] = (i, 0)
         budgets = list(range(1, smax + 2))
         cap = 200 if thorough else 40
         if len(budgets) > cap:
@@ -237,7 +243,10 @@ def _run(V, work, tier):
     V.coverage["rest_states_checked"] = nrest
 
     # ---- 3. B2 -------------------------------------------------------------------------
-    pick = rnd.sample(drv, min(len(drv), 1200 if thorough else 300))
+    # (context-less evaluations charge no steps, so their traces carry no step events for KernelTrace's step discipline
+    # to follow: the ctx-first histories are decided by the transcript comparison and the rest states above)
+    tdrv = [d for d in drv if not d["cfg"].get("ctx_first")]
+    pick = rnd.sample(tdrv, min(len(tdrv), 1200 if thorough else 300))
     tpath, summ = ktrace.record(work, binary, pick, maxev=100000)
     rej, tot = ktrace.validate_all(work, tpath)
     V.coverage["states"] += tot["states"]
